@@ -182,6 +182,11 @@ func (s *icmpDriver) handleProbeLayers(parser *packets.FrameParser) (*common.Pro
 				return nil, common.ErrPacketDidNotMatchTraceroute
 			}
 
+			// the quoted packet must be an ICMP message; the first bytes of another protocol are not an echo request
+			if icmpInfo.WrappedProtocol != layers.IPProtocolICMPv4 {
+				return nil, common.ErrPacketDidNotMatchTraceroute
+			}
+
 			msg, err := icmp.ParseMessage(ipv4.ICMPTypeEcho.Protocol(), icmpInfo.Payload)
 			if err != nil {
 				return nil, &common.BadPacketError{Err: fmt.Errorf("icmpDriver failed to get echo request: %w", err)}
@@ -243,6 +248,11 @@ func (s *icmpDriver) handleProbeLayers(parser *packets.FrameParser) (*common.Pro
 
 			if icmpInfo.ICMPPair.SrcAddr.Compare(local) != 0 {
 				log.Tracef("icmpDriver ignored packet which had another source: expected=%s, actual=%s", local, icmpInfo.ICMPPair.SrcAddr)
+				return nil, common.ErrPacketDidNotMatchTraceroute
+			}
+
+			// the quoted packet must be an ICMPv6 message; the first bytes of another protocol are not an echo request
+			if icmpInfo.WrappedProtocol != layers.IPProtocolICMPv6 {
 				return nil, common.ErrPacketDidNotMatchTraceroute
 			}
 
